@@ -4,8 +4,10 @@ import (
 	"bytes"
 	"errors"
 	"fmt"
+	"reflect"
 	"strconv"
 	"strings"
+	"sync"
 	"time"
 
 	"github.com/scrapli/scrapligo/driver/netconf"
@@ -38,6 +40,141 @@ func (d *device) Input(c *devsim.Conn, b []byte) {
 		}
 		d.Server.Send(c, ncsim.Reply(id, "<ok/>"), nil)
 	}
+}
+
+// stallConn wraps the transport model: one chosen Write stalls until another Write call has gone
+// through or a maximal time has passed (a peer that stops reading for a while). Everything else is
+// the embedded devsim.Conn.
+type stallConn struct {
+	*devsim.Conn
+	mu       sync.Mutex
+	n        int // writes seen
+	stallAt  int // absolute index of the write that stalls (0: none)
+	max      time.Duration
+	stalling bool
+	others   int // writes completed while the chosen one was stalling
+	inflight int
+	stalled  int
+	overtook int
+}
+
+func (s *stallConn) Arm(k int, max time.Duration) {
+	s.mu.Lock()
+	s.stallAt, s.max, s.others = s.n+k, max, 0
+	s.mu.Unlock()
+}
+
+func (s *stallConn) Write(b []byte) error {
+	s.mu.Lock()
+	s.n++
+	s.inflight++
+	mine := s.n == s.stallAt
+	if mine {
+		s.stalling = true
+		s.stalled++
+		deadline := time.Now().Add(s.max)
+		for s.others == 0 && time.Now().Before(deadline) {
+			s.mu.Unlock()
+			time.Sleep(time.Millisecond)
+			s.mu.Lock()
+		}
+		if s.others > 0 {
+			s.overtook++
+		}
+		s.stalling = false
+	}
+	during := s.stalling && !mine
+	s.mu.Unlock()
+	err := s.Conn.Write(b)
+	s.mu.Lock()
+	s.inflight--
+	if during {
+		s.others++
+	}
+	s.mu.Unlock()
+	return err
+}
+
+// Quiesce waits until no write is stalling or in flight.
+func (s *stallConn) Quiesce(d time.Duration) bool {
+	deadline := time.Now().Add(d)
+	for {
+		s.mu.Lock()
+		ok := !s.stalling && s.inflight == 0
+		s.mu.Unlock()
+		if ok || time.Now().After(deadline) {
+			return ok
+		}
+		time.Sleep(time.Millisecond)
+	}
+}
+
+func (o OptSpec) option() util.Option {
+	switch o.K {
+	case "filter":
+		return opoptions.WithFilter(o.S)
+	case "filter-type":
+		return opoptions.WithFilterType(o.S)
+	case "defaults":
+		return opoptions.WithDefaultType(o.S)
+	case "confirmed":
+		return opoptions.WithCommitConfirmed()
+	case "confirm-timeout":
+		return opoptions.WithCommitConfirmTimeout(o.U)
+	case "persist":
+		return opoptions.WithCommitConfirmedPersist(o.S)
+	case "persist-id":
+		return opoptions.WithCommitConfirmedPersistID(o.S)
+	}
+	panic("c03: unknown option kind " + o.K)
+}
+
+// probePool checks that the caller's shared option array is what the caller put there: every
+// element, applied to a fresh OperationOptions, has the effect of its spec; the spare capacity is
+// still empty.
+func probePool(arr []util.Option, pool []OptSpec) *complaint {
+	full := arr[:cap(arr)]
+	for j := range full {
+		if j >= len(pool) {
+			if full[j] != nil {
+				got := &netconf.OperationOptions{}
+				_ = full[j](got)
+				return bad("c03/caller-option-slice-modified", "the call wrote into the spare capacity of the caller's option slice: slot %d (caller's length %d) now holds an option with effect %+v", j, len(pool), *got)
+			}
+			continue
+		}
+		want, got := &netconf.OperationOptions{}, &netconf.OperationOptions{}
+		_ = pool[j].option()(want)
+		if full[j] == nil {
+			return bad("c03/caller-option-slice-modified", "slot %d of the caller's option slice was cleared", j)
+		}
+		_ = full[j](got)
+		if !reflect.DeepEqual(want, got) {
+			return bad("c03/caller-option-slice-modified", "slot %d of the caller's option slice (%s) was replaced: its effect is now %+v, was %+v", j, pool[j].K, *got, *want)
+		}
+	}
+	return nil
+}
+
+// callPool invokes an option-taking method with a prefix of the session's shared option array.
+func callPool(d *netconf.Driver, q Req, arr []util.Option, extra []util.Option) (*response.NetconfResponse, error) {
+	o := arr[:q.PoolN] // len PoolN, cap = cap(arr): spread as is, exactly like a caller would
+	if len(extra) > 0 {
+		o = append(append([]util.Option(nil), o...), extra...)
+	}
+	switch opOf(q.Shape) {
+	case "get":
+		f := ""
+		if q.Shape != "get" {
+			f = q.Arg.Str()
+		}
+		return d.Get(f, o...)
+	case "get-config":
+		return d.GetConfig(q.DS, o...)
+	case "rpc":
+		return d.RPC(o...)
+	}
+	return d.Commit(o...)
 }
 
 // call invokes the public method a request names.
@@ -104,6 +241,9 @@ func hasCap(caps []string, sub string) bool {
 	return false
 }
 
+// stallOpTimeout is the operation timeout of a call one of whose writes stalls (for longer).
+const stallOpTimeout = 150 * time.Millisecond
+
 // plannedTimeout is the operation timeout of a request the server is told not to answer.
 const plannedTimeout = 200 * time.Millisecond
 
@@ -149,7 +289,15 @@ func runSession(s Session, force, header bool) (*sessionOut, *mon.Result) {
 	}
 	conn := devsim.NewConn(dev, devsim.Config{Seg: s.Seg})
 	defer conn.Abandon()
-	opts := []util.Option{options.WithCustomTransport(conn), options.WithTimeoutOps(8 * time.Second), options.WithReadDelay(50 * time.Microsecond)}
+	sc := &stallConn{Conn: conn}
+	var poolArr []util.Option
+	if len(s.Pool) > 0 {
+		poolArr = make([]util.Option, len(s.Pool), len(s.Pool)+3)
+		for j, o := range s.Pool {
+			poolArr[j] = o.option()
+		}
+	}
+	opts := []util.Option{options.WithCustomTransport(sc), options.WithTimeoutOps(8 * time.Second), options.WithReadDelay(50 * time.Microsecond)}
 	if s.Via == "preferred" {
 		opts = append(opts, options.WithNetconfPreferredVersion(s.Version))
 	}
@@ -187,21 +335,64 @@ func runSession(s Session, force, header bool) (*sessionOut, *mon.Result) {
 		wantGap, wantFraming = "", "chunked"
 	}
 	prevID, prevLen := 0, 0
+	desync := false
+	resps := make([]*response.NetconfResponse, len(s.Reqs))
 	for i, q := range s.Reqs {
 		var wireBefore, msgsBefore int
 		conn.Do(func() { wireBefore, msgsBefore = len(srv.Wire), len(srv.Msgs) })
 		planned := q.NoAnswer != ""
 		var extra []util.Option
 		savedTO := d.Channel.TimeoutOps
-		if planned {
+		if planned || q.Stall > 0 {
+			to := plannedTimeout
+			if q.Stall > 0 {
+				to = stallOpTimeout
+			}
 			if q.TimeoutVia == "op" {
-				extra = append(extra, opoptions.WithTimeoutOps(plannedTimeout))
+				extra = append(extra, opoptions.WithTimeoutOps(to))
 			} else {
-				d.Channel.TimeoutOps = plannedTimeout
+				d.Channel.TimeoutOps = to
 			}
 		}
-		r, err := call(d, q, extra)
+		if q.AfterStall {
+			sc.Quiesce(5 * time.Second)
+		}
+		if q.Stall > 0 {
+			sc.Arm(q.Stall, time.Duration(s.StallMs)*time.Millisecond)
+		}
+		var r *response.NetconfResponse
+		var err error
+		if q.UsePool {
+			r, err = callPool(d, q, poolArr, extra)
+			out.obs["calls_with_aliased_option_slice"]++
+			if c := probePool(poolArr, s.Pool); c != nil {
+				return nil, viol(c, i, q, srv)
+			}
+			out.obs["option_slice_probes"]++
+		} else {
+			r, err = call(d, q, extra)
+		}
 		d.Channel.TimeoutOps = savedTO
+		if q.Stall > 0 {
+			out.obs["stalled_calls"]++
+			out.tags[fmt.Sprintf("stalled_write=%d/%s", q.Stall, s.Version)] = true
+			if err == nil {
+				out.obs["stalled_call_sat_out_the_stall"]++
+			} else {
+				out.obs["stalled_call_returned_error"]++
+			}
+		}
+		if desync {
+			// an earlier call returned while its writes were still pending: calls and messages no
+			// longer pair up one by one; the stream is judged as a whole at the end
+			var pe string
+			conn.Do(func() { pe = srv.ProtoErr })
+			if pe != "" {
+				return nil, viol(bad("c03/wire-undecodable:"+s.Version, "the strict decoder rejects the client's byte stream: %s", pe), i, q, srv)
+			}
+			resps[i] = r
+			continue
+		}
 		var msgs []*ncsim.Msg
 		var protoErr string
 		var leftover, tail []byte
@@ -218,7 +409,14 @@ func runSession(s Session, force, header bool) (*sessionOut, *mon.Result) {
 		if protoErr != "" {
 			return nil, viol(bad("c03/wire-undecodable:"+s.Version, "the strict decoder rejects the client's byte stream: %s", protoErr), i, q, srv)
 		}
-		plannedTimeoutHit := planned && err != nil && errors.Is(err, util.ErrTimeoutError)
+		plannedTimeoutHit := (planned || q.Stall > 0) && err != nil && errors.Is(err, util.ErrTimeoutError)
+		if q.Stall > 0 && plannedTimeoutHit && (len(msgs) == msgsBefore || string(tail) != "\n") {
+			// the call gave up while (some of) its writes had not happened yet. Not a violation by
+			// itself (the caller got an error), but from here on the stream is judged as a whole.
+			desync = true
+			out.obs["calls_returned_with_writes_pending"]++
+			continue
+		}
 		if planned && err == nil {
 			return nil, &mon.Result{Verdict: mon.Inconclusive, Detail: "the server did not answer, yet the call returned a response (not this property: C08)"}
 		}
@@ -344,6 +542,19 @@ func runSession(s Session, force, header bool) (*sessionOut, *mon.Result) {
 		out.tags[fmt.Sprintf("cell=%s/%s/force=%v/header=%v", q.Shape, s.Version, force, header)] = true
 		out.tags[fmt.Sprintf("position=%d", i+1)] = true
 	}
+	sc.Quiesce(5 * time.Second)
+	sc.mu.Lock()
+	out.obs["stalled_writes"] += int64(sc.stalled)
+	out.obs["stalled_writes_overtaken_by_a_later_write"] += int64(sc.overtook)
+	sc.mu.Unlock()
+	if desync {
+		if c, pos := judgeStream(s, srv, conn, resps, header, force); c != nil {
+			return nil, viol(c, pos, s.Reqs[pos], srv)
+		}
+		out.obs["sessions_judged_as_a_stream"]++
+		out.inputs = nil
+		return out, nil
+	}
 	// conservation: the wire is exactly hello, return, and the messages with their separators
 	var c *complaint
 	conn.Do(func() {
@@ -363,6 +574,62 @@ func runSession(s Session, force, header bool) (*sessionOut, *mon.Result) {
 		return nil, viol(c, len(s.Reqs)-1, s.Reqs[len(s.Reqs)-1], srv)
 	}
 	return out, nil
+}
+
+// judgeStream judges a session in which calls and messages do not pair up one by one (a call
+// returned before its writes had happened): the whole stream must decode strictly, hold exactly one
+// well-formed rpc per request (matched by message-id) carrying that request's content, and the
+// returns between messages must be the ones the requests account for.
+func judgeStream(s Session, srv *ncsim.Server, conn *devsim.Conn, resps []*response.NetconfResponse, header, force bool) (*complaint, int) {
+	var c *complaint
+	pos := len(s.Reqs) - 1
+	conn.Do(func() {
+		if srv.ProtoErr != "" {
+			c = bad("c03/wire-undecodable:"+s.Version, "the strict decoder rejects the client's byte stream: %s", srv.ProtoErr)
+			return
+		}
+		msgs := srv.Msgs[1:]
+		if len(msgs) != len(s.Reqs) || len(srv.Leftover()) > 1 {
+			c = bad("c03/message-count", "%d complete messages on the wire for %d requests; undecoded rest %s", len(msgs), len(s.Reqs), clip(srv.Leftover()))
+			return
+		}
+		minID := 0
+		for _, m := range msgs {
+			if minID == 0 || m.ID < minID {
+				minID = m.ID
+			}
+		}
+		seen := map[int]bool{}
+		covered := len(srv.Msgs[0].Raw)
+		for _, m := range msgs {
+			covered += len(m.Raw)
+			k := m.ID - minID
+			if k < 0 || k >= len(s.Reqs) || seen[k] {
+				c = bad("c03/xml:message-id:stream", "message-ids on the wire are not one per request: %d (first %d)", m.ID, minID)
+				return
+			}
+			seen[k] = true
+			pos = k
+			if _, cc := checkStructure(m.Payload, s.Reqs[k], header, force); cc != nil {
+				c = cc
+				return
+			}
+			if r := resps[k]; r != nil && !bytes.Equal(r.Input, m.Payload) {
+				c = bad("c03/input-differs-from-wire", "message %d: decoded payload differs from the Input of its response at offset %d", m.ID, firstDiff(r.Input, m.Payload))
+				return
+			}
+		}
+		// returns: 1.0 one per message (hello included), 1.1 two per message of which one is part of Raw (and the hello's one)
+		rest := len(srv.Wire) - covered
+		want := len(srv.Msgs)
+		if s.Version == "1.1" {
+			want = 1
+		}
+		if rest != want {
+			c = bad("c03/separator:"+s.Version, "%d bytes on the wire outside the messages, the requests account for %d returns", rest, want)
+		}
+	})
+	return c, pos
 }
 
 // Run judges one case: the session itself plus the twin sessions that differ in exactly one option.
